@@ -187,3 +187,22 @@ func Text() []byte  { return Msg("text") }
 func Big() []byte {
 	return []byte(strings.Repeat(strings.Repeat("x", 79)+"\n", 1265) + strings.Repeat("x", 65))
 }
+
+//go:embed reposeeds/*
+var seedFS embed.FS
+
+// RepoSeeds returns the test vectors copied (as data) from the *_test.go files of
+// golang.org/x/crypto/openpgp: keys of every kind (v3, revoked, cross-signed, user
+// attribute), v3 signatures, old-format packets, the Campbell quine. name -> bytes;
+// names ending in .asc are armored / cleartext.
+func RepoSeeds() map[string][]byte {
+	ents, err := seedFS.ReadDir("reposeeds")
+	if err != nil {
+		panic(err)
+	}
+	out := map[string][]byte{}
+	for _, e := range ents {
+		out[e.Name()] = must(seedFS.ReadFile("reposeeds/" + e.Name()))
+	}
+	return out
+}
